@@ -140,6 +140,9 @@ def _replay_chunk(cases):
 
 # ----------------------------------------------------------------------------- stage C traces
 def _random_table(rng, n, v):
+    """Super-additive integer table; every second table is NEARLY ADDITIVE (slack 0 for most intervals), the regime
+    in which early starts stay competitive for late ends and pruning decisions matter most."""
+    near_additive = bool(rng.integers(0, 2))
     C = {}
     for ln in range(1, n + 1):
         for s in range(0, n - ln + 1):
@@ -147,7 +150,8 @@ def _random_table(rng, n, v):
             if ln == 1:
                 C[(s, e)] = int(rng.integers(0, 3))
             else:
-                C[(s, e)] = max(C[(s, k)] + C[(k, e)] for k in range(s + 1, e)) + int(rng.integers(0, v + 1))
+                slack = (0 if rng.random() < 0.7 else int(rng.integers(0, v + 1))) if near_additive else int(rng.integers(0, v + 1))
+                C[(s, e)] = max(C[(s, k)] + C[(k, e)] for k in range(s + 1, e)) + slack
     return C
 
 
